@@ -6,7 +6,7 @@ import threading
 
 from . import elf
 from .common import strip_ansi
-from .proggen import diff_transcripts
+from .proggen import diff_transcripts, KNOWN_KINDS
 
 # stderr texts of wild's own size-accounting checks (C23)
 ALLOC_RE = re.compile(r"Insufficient|Allocated too much space|Inconsistent allocation detected|"
@@ -98,7 +98,9 @@ def outcome(lr, ref_transcript, kind):
     if lr.run.rc != 0 or lr.transcript != ref_transcript:
         causes = structural_causes(lr.out, kind)
     if lr.run.rc != 0:
-        where = "before-main" if not lr.transcript.strip() else "after:" + (lr.transcript.strip().splitlines()[-1].split(" ")[0])
+        last = lr.transcript.strip().splitlines()[-1].split(" ")[0] if lr.transcript.strip() else ""
+        where = "before-main" if not last else ("after:" + PROBE_FAMILY.get(last, last) if last in KNOWN_KINDS
+                                                else "after:garbled-output")
         det = f"rc={lr.run.rc if lr.run.rc >= 0 else 'signal' + str(-lr.run.rc)}:{where}"
         if lr.run.rc > 0:
             det += ":" + norm_err(lr.run.errtext(), 80)
